@@ -36,6 +36,14 @@ from rtamt.exception.exception import RTAMTException
 
 class StlDiscreteTimeOnlineAstVisitor(StlAstVisitor):
 
+    def visitAst(self, ast, *args, **kwargs):
+        # bounds of future operators that pastify() has rewritten: as written
+        # they have to be multiples of the sampling period, too
+        for spec in ast.specs:
+            for interval in getattr(spec, 'bounds_before_pastify', []):
+                self.time_unit_transformer(interval)
+        return super(StlDiscreteTimeOnlineAstVisitor, self).visitAst(ast, *args, **kwargs)
+
     def visitVariable(self, node, *args, **kwargs):
         self.visitChildren(node, *args, **kwargs)
         self.online_operator_dict[node.name] = VariableOperation()
